@@ -209,6 +209,95 @@ def api_solve_run(case, dist, na, seed):
     return P, W, r, "solved"
 
 
+def cli_solve_run(case, dist, na, seed):
+    """the same kind of instance through the real command line (`pydcop -t T --output f solve --algo dpop -d <dist> dcop.yaml`
+    run as a child process importing the repository under test): the DCOP goes through dcop_yaml / load_dcop_from_file,
+    the distribution is 'oneagent' or a distribution file written by the harness; judged on the JSON result file"""
+    import json
+    import os
+    import random as _r
+    import shutil
+    import subprocess
+    import sys
+    import tempfile
+    import time
+    import yaml
+    from pydcop.dcop import yamldcop
+
+    rng = _r.Random(seed)
+    # what the YAML format can express: cost functions of variables are expressions (integer domains); the costs of the
+    # other variables are dropped from the instance (case is this run's own copy)
+    import copy
+    import math
+
+    case = copy.deepcopy(case)
+    for v in case["variables"]:
+        if v.get("costs") and not (all(isinstance(x, int) and not isinstance(x, bool) for x in v["domain"]) and
+                                   all(isinstance(c, (int, float)) and not math.isinf(c) for c in v["costs"])):
+            v["costs"] = None
+    dcop, agents, algo_def, cg = orch.build_problem(case, "dpop", {}, na, cost_style="expr")
+    W = {"case": case, "dist": dist, "nagents": na, "seed": seed, "api": "command line"}
+    r = {"errors": []}
+    d = tempfile.mkdtemp(prefix="pvc22cli_")
+    try:
+        with open(os.path.join(d, "dcop.yaml"), "w") as f:
+            f.write(yamldcop.dcop_yaml(dcop))
+        if dist == "oneagent" and na >= len(case["variables"]):
+            darg = "oneagent"
+            r["mapping"] = {"(oneagent, computed by the command)": [v["name"] for v in case["variables"]]}
+        else:
+            try:
+                distribution = orch.make_distribution(dist if dist != "oneagent" else "random", cg, agents, rng, seed)
+            except Exception:
+                return [], W, r, "distribution-failed"
+            r["mapping"] = {a: list(cs) for a, cs in distribution.mapping().items()}
+            darg = os.path.join(d, "dist.yaml")
+            with open(darg, "w") as f:
+                f.write(yaml.dump({"distribution": r["mapping"]}))
+        W["mapping"] = r["mapping"]
+        out = os.path.join(d, "result.json")
+        code = "import sys; sys.path.insert(0, %r); from pydcop.dcop_cli import main; sys.argv = ['pydcop'] + sys.argv[1:]; main()" % common.REPO
+        argv = [sys.executable, "-W", "ignore", "-c", code, "-t", str(int(T)), "--output", out, "solve", "--algo", "dpop", "-d", darg,
+                os.path.join(d, "dcop.yaml")]
+        t0 = time.time()
+        try:
+            pr = subprocess.run(argv, cwd=d, stdout=subprocess.PIPE, stderr=subprocess.STDOUT, text=True, timeout=T + 60)
+        except subprocess.TimeoutExpired:
+            return [("harness:cli-solve-watchdog", "the solve command had not exited after %d s" % (T + 60))], W, r, "blocked"
+        r["run_wall"] = time.time() - t0
+        P = []
+        if not os.path.exists(out):
+            P.append(("cli-solve:no-result", "pydcop solve exited with code %s without writing its result file; output tail: %s" % (pr.returncode, pr.stdout[-400:])))
+            return P, W, r, "error"
+        res = json.load(open(out))
+    finally:
+        shutil.rmtree(d, ignore_errors=True)
+    r["status"] = res.get("status")
+    W["status"] = r["status"]
+    if res.get("status") != "FINISHED":
+        P.append(("cli-solve:status", "pydcop solve --algo dpop reported status %r after %.1f s (timeout %s s), mapping %r" % (res.get("status"), r["run_wall"], T, r["mapping"])))
+        return P, W, r, "timeout" if res.get("status") == "TIMEOUT" else "error"
+    asg = res.get("assignment") or {}
+    vm = gen.var_map(case)
+    if sorted(asg) != sorted(vm):
+        P.append(("cli-solve:assignment-incomplete", "assignment %r for variables %r" % (asg, sorted(vm))))
+        return P, W, r, "incomplete"
+    for n, val in asg.items():
+        if val not in vm[n]["domain"]:
+            P.append(("cli-solve:value-outside-domain", "%s = %r not in %r" % (n, val, vm[n]["domain"])))
+            return P, W, r, "bad-value"
+    got = gen.total_cost(case, asg)
+    best, _ = gen.brute_force(case)
+    if not gen.close(got, best, 1e-9):
+        P.append(("cli-solve:not-optimal", "%s problem: reported assignment %r costs %r, optimum %r" % (case["objective"], asg, got, best)))
+    viol, cost = accounting(case, asg)
+    if res.get("violation") != viol or not gen.close(res.get("cost"), cost, 1e-9):
+        P.append(("cli-solve:reported-cost-mismatch", "reported cost %r / violation %r, accounting of the reported assignment gives %r / %r" % (
+            res.get("cost"), res.get("violation"), cost, viol)))
+    r["metrics"] = {"assignment": asg, "cost": res.get("cost"), "violation": res.get("violation"), "msg_count": res.get("msg_count")}
+    return P, W, r, "solved"
+
+
 def worker(job):
     R = common.WorkerResult()
     seed = job["seed"]
@@ -218,7 +307,10 @@ def worker(job):
         rseed = (seed * 1000003 + i * 17) & 0x7FFFFFFF
         lines = bool(job.get("lines")) and i % 2 == 0
         try:
-            if i % 4 == 3:
+            if i % 8 == 5:
+                P, W, r, outcome = cli_solve_run(case, dist, na, rseed)
+                R.count("runs_through_the_solve_command_line")
+            elif i % 4 == 3:
                 P, W, r, outcome = api_solve_run(case, dist, na, rseed)
                 R.count("runs_through_infrastructure_run_solve")
             else:
